@@ -91,7 +91,8 @@ class RectanglePixelRegion(PixelRegion):
 
     @property
     def area(self):
-        return self.width * self.height
+        # float: fixed-width numpy integer sizes would wrap around
+        return float(self.width) * float(self.height)
 
     def contains(self, pixcoord):
         cos_angle = np.cos(self.angle)
